@@ -146,7 +146,8 @@ def outcome(fn, dev):
 
 
 # ---- arguments for guarded operations (only matter on paths where the guard holds) ----
-def op_args(fn, dk):
+def op_args(fn, dk, variant=None):
+    """variant "ctrl": BLE PDU arguments carry a link-layer CONTROL layer (BTLE_CTRL)"""
     from scapy.packet import Raw
     sig = inspect.signature(fn)
     args = {}
@@ -160,7 +161,10 @@ def op_args(fn, dk):
             from whad.common.triggers import ManualTrigger
             args[name] = ManualTrigger()
         elif name in ("pdu", "packet", "data"):
-            if dk == "ble":
+            if dk == "ble" and variant == "ctrl":
+                from scapy.layers.bluetooth4LE import BTLE_DATA, BTLE_CTRL, LL_TERMINATE_IND
+                args[name] = BTLE_DATA(LLID=3) / BTLE_CTRL() / LL_TERMINATE_IND(code=0x13)
+            elif dk == "ble":
                 from scapy.layers.bluetooth4LE import BTLE_DATA
                 args[name] = BTLE_DATA() / Raw(b"\x01\x02")
             elif dk == "phy":
@@ -336,14 +340,17 @@ def main():
     def call_method(conn, dev, dk, meth):
         if meth.startswith("@"):
             return device_event(conn, dev, dk, meth[1:])
+        meth, _, variant = meth.partition("#")        # "send_pdu#ctrl": argument variant
         fn = getattr(conn, meth)
-        kw = op_args(fn, dk)
+        kw = op_args(fn, dk, variant or None)
         return outcome(lambda: fn(**kw), dev)
 
     for case in req.get("ops", []):
         oid, cmds, caps, seed = case[:4]
         prefix = case[4] if len(case) > 4 else []
         dk, cname, meth = oid.split(".")
+        if len(case) > 5 and case[5]:
+            meth = meth + "#" + case[5]
         key = (dk, cname)
         if key not in ocls:
             modname = [m for d, m, c in T.OP_CLASSES if d == dk and c == cname][0]
